@@ -35,19 +35,16 @@ int main(int argc, char** argv) {
             tree_instance* ti{};
             out << " find_old=" << find_storage("st", &ti);
         }
-        // 2. all slots free
+        // 2. every slot is free right after init (observed without touching them: enter one, look at its index)
         {
-            std::vector<Token> toks;
-            std::size_t got = 0;
-            for (std::size_t i = 0; i < YAKUSHIMA_MAX_PARALLEL_SESSIONS + 1; ++i) {
-                Token t{};
-                if (enter(t) == status::OK) {
-                    ++got;
-                    toks.push_back(t);
-                }
-            }
-            for (auto t : toks) leave(t);
-            out << " slots_free=" << got << "/" << YAKUSHIMA_MAX_PARALLEL_SESSIONS;
+            Token t{};
+            status s = enter(t);
+            auto& table = thread_info_table::get_thread_info_table();
+            std::size_t idx = (s == status::OK) ? static_cast<std::size_t>(static_cast<thread_info*>(t) - &table.at(0)) : 99;
+            std::size_t busy = 0;
+            for (auto& e : table) busy += e.get_running() ? 1 : 0;
+            if (s == status::OK) leave(t);
+            out << " first_slot=" << idx << " busy_after_init=" << (busy - (s == status::OK ? 1 : 0));
         }
         // 3. work, epoch progress, reclamation while running
         create_storage("st");
@@ -69,10 +66,31 @@ int main(int argc, char** argv) {
         Epoch e1 = epoch_management::get_epoch();
         long long live_after = vtrack::g_live_count.load();
         out << " epoch_advance=" << (e1 - e0) << " reclaimed=" << (live_before - live_after);
+        // all slots can be taken (and are given back)
+        {
+            std::vector<Token> toks;
+            std::size_t got = 0;
+            for (std::size_t i = 0; i < YAKUSHIMA_MAX_PARALLEL_SESSIONS + 1; ++i) {
+                Token t{};
+                if (enter(t) == status::OK) {
+                    ++got;
+                    toks.push_back(t);
+                }
+            }
+            // keep the higher slots for a moment so that the session left open below sits at a high index
+            out << " slots_free=" << got << "/" << YAKUSHIMA_MAX_PARALLEL_SESSIONS;
+            for (auto t : toks) leave(t);
+        }
         // the storage still works
         {
+            std::vector<Token> hold;
+            for (int i = 0; i < leave_open - 1; ++i) {
+                Token h{};
+                if (enter(h) == status::OK) hold.push_back(h);
+            }
             Token t2{};
             enter(t2);
+            for (auto h : hold) leave(h);
             std::string k = "again";
             status s = put<char>(t2, "st", k, val.data(), val.size());
             std::pair<char*, std::size_t> g{};
